@@ -16,6 +16,7 @@
 import Stgutg.Model.FailStop
 import Stgutg.Gen.Script
 import Stgutg.Proofs.FailStop
+import Stgutg.Spec.FailStop
 
 namespace Stgutg.Props.C19
 open Stgutg.Model.FailStop Stgutg.Proofs.FailStop Stgutg.Gen.Script
@@ -239,6 +240,82 @@ theorem C19_ignored_reads (c : Counts) (k : Nat) : ignoredRead c k ↔ ∃ i, i 
     constructor
     · rintro ⟨i, hi, h⟩; exact ⟨i, hi, by omega⟩
     · rintro ⟨i, hi, h⟩; exact ⟨i, hi, by omega⟩
+
+/-- **The uplink messages of a run**: 1 for NG Setup, 5 per registration, 2 per establishment, 2 per service request,
+    3 per release, 2 per de-registration. -/
+theorem C19_write_count (c : Counts) :
+    writes (testBody c) = 1 + 5 * nReg c + 2 * nPdu c + 2 * nSvc c + 3 * nRel c + 2 * nDereg c := by
+  have h : (body.map (itemWrites script.procs c)).foldl (· + ·) 0 =
+      1 + nReg c * 5 + nPdu c * 2 + nSvc c * 2 + nRel c * 3 + nDereg c * 2 := rfl
+  rw [testBody, writes_flatItems, h]
+  omega
+
+/-! ### the property in its own terms (`Spec/FailStop.lean`: written from the statement, not from the code) -/
+
+def specCounts (c : Counts) : Spec.FailStop.Counts := ⟨c.reg, c.pdu, c.svc, c.rel, c.dereg⟩
+
+theorem goMin_eq_min (x y : Int) : goMin x y = min x y := by
+  unfold goMin
+  rw [Int.min_def]
+  split <;> split <;> omega
+
+/-- **The generated script has the shape the property talks about**: the same number of reads and of uplink messages
+    for all counts, and the reads whose content the code ignores are exactly the messages after Registration Complete. -/
+theorem C19_model_matches_skeleton (c : Counts) :
+    totalReads c = Spec.FailStop.totalReads (specCounts c) ∧
+    writes (testBody c) = Spec.FailStop.totalWrites (specCounts c) ∧
+    ∀ k, ignoredRead c k ↔ Spec.FailStop.excludedRead (specCounts c) k = true := by
+  refine ⟨?_, ?_, ?_⟩
+  · rw [C19_read_count]
+    simp [Spec.FailStop.totalReads, Spec.FailStop.nReg, Spec.FailStop.nPdu, Spec.FailStop.nSvc, Spec.FailStop.nDereg,
+      specCounts, nReg, nPdu, nSvc, nDereg, goMin_eq_min]
+  · rw [C19_write_count]
+    simp [Spec.FailStop.totalWrites, Spec.FailStop.nReg, Spec.FailStop.nPdu, Spec.FailStop.nSvc, Spec.FailStop.nRel,
+      Spec.FailStop.nDereg, specCounts, nReg, nPdu, nSvc, nRel, nDereg, goMin_eq_min]
+  · intro k
+    have e : Spec.FailStop.nReg (specCounts c) = nReg c := rfl
+    rw [C19_ignored_reads]
+    simp only [Spec.FailStop.excludedRead, e, Bool.and_eq_true, decide_eq_true_eq, beq_iff_eq]
+    constructor
+    · rintro ⟨i, hi, rfl⟩
+      refine ⟨⟨by omega, by omega⟩, by omega⟩
+    · rintro ⟨⟨h1, h2⟩, h3⟩
+      exact ⟨k / 4 - 1, by omega, by omega⟩
+
+/-- **C19 as the property states it**: for all counts and all reply sequences, "the peer closes instead of answer `k`"
+    for any message index `k` of the conversation, and "answer `k` is undecodable" for any `k` except the message after
+    Registration Complete, end the process with a non-zero status, without the banner, without a session reported
+    afterwards, without any further read, within the script's own sleeps. -/
+theorem C19_failstop_spec (c : Counts) (rs : List Reply) (k : Nat)
+    (hf : (rs[k]? = some .closed ∧ Spec.FailStop.closeInScope (specCounts c) k = true) ∨
+          (rs[k]? = some .garbage ∧ Spec.FailStop.garbageInScope (specCounts c) k = true)) :
+    (∃ e, (run script c rs).exit = some e ∧ e ≠ 0) ∧
+    Out.line banner ∉ (run script c rs).printed ∧
+    (∀ x ∈ (run script c rs).sessions, x ≤ k) ∧
+    (run script c rs).consumed ≤ k + 1 ∧
+    (run script c rs).blocked = false ∧
+    (run script c rs).sleptMs ≤ sleepTotal (testBody c) := by
+  obtain ⟨hr, _, hi⟩ := C19_model_matches_skeleton c
+  rcases hf with ⟨h1, h2⟩ | ⟨h1, h2⟩
+  · simp only [Spec.FailStop.closeInScope, decide_eq_true_eq] at h2
+    exact C19_failstop c rs k (hr ▸ h2) (Or.inl h1)
+  · simp only [Spec.FailStop.garbageInScope, Bool.and_eq_true, decide_eq_true_eq, Bool.not_eq_true'] at h2
+    refine C19_failstop c rs k (hr ▸ h2.1) (Or.inr ⟨h1, ?_⟩)
+    intro hign
+    have := (hi k).mp hign
+    simp [h2.2] at this
+
+/-- **C19, close between two uplink messages, as the property states it**: the peer closes right after uplink message
+    `j` while the program still has something to send. -/
+theorem C19_failstop_close_after_uplink_spec (c : Counts) (rs : List Reply) (j : Nat)
+    (hj : Spec.FailStop.closeAfterUplinkInScope (specCounts c) j = true)
+    (hlen : Spec.FailStop.totalReads (specCounts c) ≤ rs.length) :
+    (∃ e, (run script c rs (some (j + 1))).exit = some e ∧ e ≠ 0) ∧
+    Out.line banner ∉ (run script c rs (some (j + 1))).printed ∧
+    (run script c rs (some (j + 1))).ul.length ≤ j + 1 := by
+  obtain ⟨hr, hw, _⟩ := C19_model_matches_skeleton c
+  simp only [Spec.FailStop.closeAfterUplinkInScope, decide_eq_true_eq] at hj
+  exact C19_failstop_peer_closes_between_messages c rs (j + 1) (hw ▸ hj) (hr ▸ hlen)
 
 /-! ### the hypotheses are satisfiable, and the model does what the dry run showed -/
 
